@@ -27,11 +27,44 @@ DECIDED = [
     "OWN-7 the default registry Validation._handlers is written only inside register_handler; register_handler is called only at module level of validation.py",
     "TS-1 Validation(reset=True) shadows the registry with a fresh dict on every path; register_custom_handler writes through self; its call sites use receivers built with reset=True",
     "DET-1 no rule lets the iteration order of a set decide what it reports",
+    "DET-2 no function of the validation module keeps state between calls in a mutable default argument",
+    "PURE-4 every rule function defined in odml.validation - registered by default or offered for custom validations - writes nothing visible",
     "CACHE-1 (shared with C18) a terminology enters the cache only after it was finalised (the terminology rules read that cache)",
     "RESET-1 run_validation empties the issue list before any rule runs and on every path",
 ]
 NOT_DECIDED = ["set iteration order of handlers across processes (issues are compared as multisets)",
                "user code outside the package calling register_handler"]
+
+
+def reset1_rule(prog, rep, rule="RESET-1"):
+    """(shared with C08 and C09) a kept Validation object that is run again reports what a fresh one reports"""
+    vcls = prog.cls("Validation")
+    rep.rule(rule, "in Validation.run_validation the store self.errors = [] dominates every call of self.validate and every "
+                        "normal exit, so validating the same object again reports the same collection of issues")
+    rv = vcls.lookup_method("run_validation")
+    g = build_cfg(rv)
+    resets = [n for n in g.nodes if n.kind == "stmt" and isinstance(n.ast, ast.Assign)
+              and any(unparse(t) == "%s.errors" % rv.params[0] for t in n.ast.targets)
+              and isinstance(n.ast.value, ast.List) and not n.ast.value.elts]
+    rep.check(len(resets) >= 1, rule, "run_validation resets the issue list", "self.errors = []",
+              "run_validation no longer resets self.errors", rv.where)
+    if resets:
+        r0 = resets[0]
+        for n in g.nodes:
+            for root in n.expr_roots():
+                for c in calls_in(root):
+                    if call_name(c) in ("%s.validate" % rv.params[0], "%s.error" % rv.params[0]):
+                        rep.check(g.dominates(r0, n) and n.id != r0.id, rule, "run_validation: %s after the reset" % unparse(c)[:40],
+                                  "dominated by the reset", "%s can run before the issue list was reset: issues accumulate over "
+                                  "repeated validations" % unparse(c)[:40], where(rv, c),
+                                  witness="run_validation() twice on a Validation of a single Property")
+        exits_ok = all(g.dominates(r0, p) for _, p in g.exit.pred)
+        rep.check(exits_ok, rule, "every normal exit of run_validation passed the reset", "ok",
+                  "run_validation can return without resetting the issue list", rv.where,
+                  witness="report() on an unchanged object doubles the issues")
+    rp = vcls.lookup_method("report")
+    rep.check(any(call_name(c) == "%s.run_validation" % rp.params[0] for c in calls_in(rp.node)), rule,
+              "report() re-validates through run_validation", "ok", "report() does not go through run_validation", rp.where)
 
 
 def run(prog, rep):
@@ -78,6 +111,24 @@ def run(prog, rep):
                                                                      "the validated object" if w.origin[0] == "P0" else w.origin[0],
                                                                      w.text, w.func, (" via " + " -> ".join(w.via)) if w.via else ""),
                      "%s:%s" % (w.func, w.lineno), witness="validate a document twice / compare the document before and after")
+    # ---------------------------------------------------------------- PURE-4
+    rep.rule("PURE-4", "every public generator function of odml.validation that takes the validated object as its first parameter (the rules "
+                       "a custom Validation may register, whether or not they are default rules) has no write whose receiver originates "
+                       "from that object; the terminology cache (a global of odml.terminology) is not part of any document")
+    n_off = 0
+    for name, h in sorted(prog.module_of("validation").functions.items()):
+        if name.startswith("_") or not h.is_generator or not h.params or h in handlers:
+            continue
+        n_off += 1
+        rep.saw_function(h)
+        bad = [w for w in S.visible_writes(h) if w.origin[0] == "P0"]
+        rep.check(not bad, "PURE-4", "%s does not write the validated object" % h.short, "ok",
+                  "rule %s writes %s of the validated object: `%s` in %s%s" % (
+                      h.short, bad[0].field if bad else "", bad[0].text if bad else "", bad[0].func if bad else "",
+                      (" via " + " -> ".join(bad[0].via)) if bad and bad[0].via else ""),
+                  ("%s:%s" % (bad[0].func, bad[0].lineno)) if bad else h.where,
+                  witness="register the rule on Validation(reset=True), run it, compare the document before and after")
+    rep.floor("PURE-4", n_off, 1, "rule functions offered for custom validations")
     vcls = prog.cls("Validation")
     for name in ("run_validation", "validate", "report", "error", "__getitem__"):
         f = vcls.lookup_method(name)
@@ -204,6 +255,29 @@ def run(prog, rep):
                   "register_custom_handler is called on a Validation not built with the literal reset=True (%s): the rule is "
                   "added to the default registry" % detail, where(f, c), witness="default validations report the custom rule afterwards")
 
+    # --------------------------------------------------------------- DET-2
+    rep.rule("DET-2", "for every function of odml.validation: a parameter whose default is a list / dict / set display (or list() / dict() / "
+                      "set()) is never written through - the default object is created once and shared by all calls, so a write makes the "
+                      "second validation see what the first one collected")
+    vmod = prog.module_of("validation")
+    n_fun = 0
+    for f in prog.all_functions():
+        if f.module is not vmod:
+            continue
+        n_fun += 1
+        for i, prm in enumerate(f.params):
+            d = f.defaults.get(prm)
+            mutable = isinstance(d, (ast.List, ast.Dict, ast.Set)) or \
+                (isinstance(d, ast.Call) and isinstance(d.func, ast.Name) and d.func.id in ("list", "dict", "set", "defaultdict") )
+            if not mutable:
+                continue
+            ws = [w for w in S.writes(f) if w.origin[0] == "P%d" % i]
+            rep.check(not ws, "DET-2", "%s: default of %s is never written" % (f.short, prm), "read only",
+                      "%s has the mutable default %s=%s and writes through it (`%s`): what one call collects is seen by the next"
+                      % (f.short, prm, unparse(d), ws[0].text if ws else ""), f.where,
+                      witness="a custom Validation that registers the rule directly: the second run reports every object as a duplicate of itself")
+    rep.floor("DET-2", n_fun, 20, "functions of odml.validation inspected")
+
     # --------------------------------------------------------------- DET-1
     rep.rule("DET-1", "a registered rule that picks one element of a set by max()/min() with a key (ties are broken by the set's iteration "
                       "order, which depends on the process' string hash seed) may use the pick only where the set is known to have one "
@@ -245,33 +319,7 @@ def run(prog, rep):
     from .c18 import publish_after_finalize
     publish_after_finalize(prog, rep, prog.cls("Terminologies"), "Terminologies", "CACHE-1")
 
-    # --------------------------------------------------------------- RESET-1
-    rep.rule("RESET-1", "in Validation.run_validation the store self.errors = [] dominates every call of self.validate and every "
-                        "normal exit, so validating the same object again reports the same collection of issues")
-    rv = vcls.lookup_method("run_validation")
-    g = build_cfg(rv)
-    resets = [n for n in g.nodes if n.kind == "stmt" and isinstance(n.ast, ast.Assign)
-              and any(unparse(t) == "%s.errors" % rv.params[0] for t in n.ast.targets)
-              and isinstance(n.ast.value, ast.List) and not n.ast.value.elts]
-    rep.check(len(resets) >= 1, "RESET-1", "run_validation resets the issue list", "self.errors = []",
-              "run_validation no longer resets self.errors", rv.where)
-    if resets:
-        r0 = resets[0]
-        for n in g.nodes:
-            for root in n.expr_roots():
-                for c in calls_in(root):
-                    if call_name(c) in ("%s.validate" % rv.params[0], "%s.error" % rv.params[0]):
-                        rep.check(g.dominates(r0, n) and n.id != r0.id, "RESET-1", "run_validation: %s after the reset" % unparse(c)[:40],
-                                  "dominated by the reset", "%s can run before the issue list was reset: issues accumulate over "
-                                  "repeated validations" % unparse(c)[:40], where(rv, c),
-                                  witness="run_validation() twice on a Validation of a single Property")
-        exits_ok = all(g.dominates(r0, p) for _, p in g.exit.pred)
-        rep.check(exits_ok, "RESET-1", "every normal exit of run_validation passed the reset", "ok",
-                  "run_validation can return without resetting the issue list", rv.where,
-                  witness="report() on an unchanged object doubles the issues")
-    rp = vcls.lookup_method("report")
-    rep.check(any(call_name(c) == "%s.run_validation" % rp.params[0] for c in calls_in(rp.node)), "RESET-1",
-              "report() re-validates through run_validation", "ok", "report() does not go through run_validation", rp.where)
+    reset1_rule(prog, rep, "RESET-1")
     rep.note("register_custom_handler on a Validation built without reset=True mutates the class registry (public API misuse, "
              "outside the statement); the package itself never does so (TS-1)")
     rep.assume("call resolution of odmlsa.kinds (class hierarchy + kinds); unresolved calls are listed in the evidence")
